@@ -90,6 +90,8 @@ def oracle_load_equality(ck, rng):
     n = 16 if ck.tier == "quick" else 200
     for i in range(n):
         b = int(rng.integers(1, 5))
+        if i % 8 == 2:
+            b = 2 + (i // 8) % 2          # (directed low-face case below: a bin size > 1)
         S = tuple(int(x) for x in rng.integers(1, 5, size=3))
         dims = tuple(int(x) for x in rng.integers(10 * b, 10 * b + b + 3, size=3))
         # tomogram voxel type: float, or a narrow integer type whose block sums exceed its range
@@ -109,6 +111,11 @@ def oracle_load_equality(ck, rng):
         image = da.from_array(img, chunks=(7, 5, 6)) if use_dask else img
         kind = "batch" if i % 3 == 0 else "single"
         order = int(rng.choice([0, 1]))
+        if i % 8 == 2:
+            # directed: box flush against the low faces, linear interpolation, default (not corner-safe) cropping
+            order, corner_safe = 1, False
+            c = b * np.array([(s - 1) / 2 for s in S], dtype=float) + (b - 1) / 2
+            mol = Molecules(c[None] * scale)
         if kind == "single":
             ld = SubtomogramLoader(image, mol, order=order, scale=scale, output_shape=S, corner_safe=corner_safe)
         else:
